@@ -64,6 +64,22 @@ __CPROVER_ensures(gh_allocs == __CPROVER_old(gh_allocs))
 ;
 #endif
 
+/* ---- future<int>::resolve(): what every resolver (promise call, drop, destruction, async final step) ends with.  Same contract as the
+ * swing itself: the slot goes to the ready marker by exactly ONE read-modify-write (a "nobody waits" test followed by a plain store would lose
+ * a waiter that registers in between - seeded change C02-5), the chain detached by that very RMW is walked exactly once. */
+#ifdef CV_HAS_fu_resolve
+void fu_resolve(SP *ret, FUT *this_)
+__CPROVER_requires(cv_exc_pending == 0 && gh_INSTANCE == (void *)AW_INSTANCE && gh_DISABLED == (void *)AW_DISABLED && gh_P_cell == 0 && gh_F_slot == (void **)&this_->base_future_common._awaiter._M_b._M_p)
+__CPROVER_requires(gh_tok == TOK_ME && *gh_F_slot != F_DIS && gh_resolved_by_me == 0 && gh_rc_calls == 0 && gh_my_node == 0 && gh_node_own == OWN_NONE)
+__CPROVER_requires((gh_rc_cf == 0 || gh_rc_cf == 2 || gh_rc_cf == 4 || gh_rc_cf == 6) && __CPROVER_is_fresh(ret, sizeof(*ret)))
+__CPROVER_assigns(__CPROVER_object_whole(ret), *gh_F_slot, PROTF_GHOSTS, gh_rc_calls, gh_rc_chain)
+__CPROVER_ensures(cv_exc_pending == 0 && *gh_F_slot == F_DIS && gh_resolved_by_me == 1 && gh_tok == TOK_SPENT && gh_n_slot_rmw == __CPROVER_old(gh_n_slot_rmw) + 1)
+__CPROVER_ensures(gh_rc_calls == 1 && gh_rc_chain == gh_chain_at_resolve)               /* no waiter lost: every waiter subscribed before the swing is in the detached chain; it is walked once */
+__CPROVER_ensures(ret->_count_flag == gh_rc_cf && ret->f0.f0._handles[0] == gh_rc_h[0] && ret->f0.f0._handles[1] == gh_rc_h[1] && ret->f0.f0._handles[2] == gh_rc_h[2])
+__CPROVER_ensures(gh_allocs == __CPROVER_old(gh_allocs))
+;
+#endif
+
 /* ---- awaiter::resume(): callback awaiters run their function (with the registered context), coroutine awaiters yield their handle */
 #ifdef CV_HAS_aw_resume
 int gh_cb_calls; void *gh_cb_me, *gh_cb_ctx; 
